@@ -32,6 +32,12 @@ Theorem C17_sources_follow_the_discipline : ownership_ok own_fields own_accesses
 Proof. exact ownership_holds. Qed.
 Print Assumptions C17_sources_follow_the_discipline.
 
+(* ... and every function touching a package-level map of the engine's packages takes the lock it needs
+   (a write lock for writing) *)
+Theorem C17_package_level_maps_locked : global_maps_ok global_map_accesses = true.
+Proof. exact global_maps_hold. Qed.
+Print Assumptions C17_package_level_maps_locked.
+
 (* without the discipline a race exists (the notion is not vacuous) *)
 Theorem C17_race_without_discipline : race [Acc 1 7 true; Acc 2 7 false] 7.
 Proof. exact undisciplined_race. Qed.
